@@ -19,7 +19,7 @@ TraceInit == /\ tid \in 1..Len(Traces)
              /\ RollInit(Traces[tid].op, Traces[tid].W, Traces[tid].minp)
              /\ i = 0
 
-TraceRow == /\ T.out = "ok" /\ i < N
+TraceRow == /\ T.out = "ok" /\ i < N /\ Len(T.res) = N /\ (IF "hi" \in DOMAIN T THEN Len(T.hi) = N ELSE TRUE)
             /\ RowRoll(T.keys[i + 1], T.vals[i + 1], T.sel[i + 1] = 1)
             /\ i' = i + 1
             /\ (Diag \/ LET r == i + 1 IN
